@@ -9,6 +9,7 @@ import (
 	"bufio"
 	"fmt"
 	"io"
+	"os"
 	"os/exec"
 	"strconv"
 	"strings"
@@ -24,6 +25,7 @@ type Solver struct {
 	argv    []string
 	timeout int // ms per query
 	buf     strings.Builder
+	transcript strings.Builder
 
 	Queries   int
 	Sat       int
@@ -35,7 +37,14 @@ type Solver struct {
 	dumpQuery func(string)
 }
 
-var solverArgv = []string{"z3", "-in"}
+var solverArgv = defaultSolver()
+
+func defaultSolver() []string {
+	if p, err := exec.LookPath("z3-new"); err == nil {
+		return []string{p, "-in"}
+	}
+	return []string{"z3", "-in"}
+}
 
 var totalSolverNs atomic.Int64
 
@@ -83,9 +92,13 @@ func (s *Solver) Close() {
 	}
 }
 
+var dumpSlowDir = os.Getenv("GOSYM_DUMP_SLOW")
+var dumpSeq atomic.Int64
+
 // Reset starts a fresh context for a new run.
 func (s *Solver) Reset() {
 	s.buf.Reset()
+	s.transcript.Reset()
 	s.emitted = map[int]bool{}
 	if s.isCvc5() {
 		s.buf.WriteString("(reset)\n")
@@ -154,8 +167,8 @@ func (s *Solver) Check(extra *Term, wants []*Term) (string, map[*Term]uint64) {
 	}
 	fmt.Fprintf(&s.buf, "(push 1)\n(assert %s)\n(check-sat)\n", extra.ref())
 	q := s.buf.String()
-	if s.dumpQuery != nil {
-		s.dumpQuery(q)
+	if dumpSlowDir != "" {
+		s.transcript.WriteString(q)
 	}
 	s.buf.Reset()
 	if _, err := io.WriteString(s.in, q); err != nil {
@@ -186,6 +199,13 @@ func (s *Solver) Check(extra *Term, wants []*Term) (string, map[*Term]uint64) {
 	}
 	io.WriteString(s.in, "(pop 1)\n")
 	d := time.Since(t0)
+	if dumpSlowDir != "" {
+		if d > 3*time.Second {
+			n := dumpSeq.Add(1)
+			os.WriteFile(fmt.Sprintf("%s/slow-%d-%s-%dms.smt2", dumpSlowDir, n, res[:3], d.Milliseconds()), []byte(s.transcript.String()), 0o644)
+		}
+		s.transcript.WriteString("(pop 1)\n")
+	}
 	s.Queries++
 	s.Time += d
 	totalSolverNs.Add(int64(d))
